@@ -78,6 +78,23 @@ def run(tier, seed):
     else:
         os.environ["TZ"] = saved_tz
     time.tzset()
+    # JSON numbers that are no integers: NaN / infinities are outside every window, a fractional timestamp is judged like the number it is
+    saved = vst.time
+    vst.time = impl._FakeTime(T0, 0.25)
+    try:
+        for ts, must in ((float("nan"), False), (float("inf"), False), (float("-inf"), False), (1e300, False), (-1e300, False), (T0 * 1000 + 0.5, True), (T0 * 1000 - 9999.5, True),
+                         (T0 * 1000 + 10000.5, False), (T0 * 1000 - 11000.5, False)):
+            try:
+                f(ts)
+                ok = True
+            except Exception:
+                ok = False
+            chk.evals += 1
+            if ok != must:
+                chk.violation(f"SafetyNet timestamp {ts!r} {'accepted' if ok else 'rejected'}", f"ts-window non-integer {ts!r}", {"entry": "verify_safetynet_timestamp", "clock_ms": T0 * 1000 + 250, "timestamp_ms": repr(ts), "accepted": ok})
+            chk.seen(("ts-float", repr(ts)))
+    finally:
+        vst.time = saved
     chk.sample({"subject": "verify_safetynet_timestamp", "clock_ms": T0 * 1000 + 250, "offsets_ms": sorted(offs)[:12]})
     # 2. SafetyNet through verify_registration_response
     for off_ms in (-11001, -10250, -10000, -9000, 0, 9000, 9750, 10001, 11000, 3600000, -3600000):
